@@ -1,0 +1,31 @@
+//go:build verif
+
+package index
+
+// Verification hooks (build tag verif only) for the case-insensitive substring path.
+
+// VerifGenerateCaseNgrams is generateCaseNgrams on a rune trigram; the variants are returned as rune triples.
+func VerifGenerateCaseNgrams(g [3]rune) [][3]rune {
+	vs := generateCaseNgrams(runesToNGram(g))
+	out := make([][3]rune, 0, len(vs))
+	for _, v := range vs {
+		out = append(out, ngramToRunes(v))
+	}
+	return out
+}
+
+// VerifToLower is toLower.
+func VerifToLower(in []byte) []byte { return toLower(in) }
+
+// VerifCaseFoldingEqualsRunes is caseFoldingEqualsRunes.
+func VerifCaseFoldingEqualsRunes(lower, mixed []byte) (int, bool) {
+	return caseFoldingEqualsRunes(lower, mixed)
+}
+
+// VerifMatchContentCI runs candidateMatch.matchContent for a case-insensitive candidate at byteOffset and
+// returns (byteMatchSz, ok).
+func VerifMatchContentCI(pattern, content []byte, byteOffset uint32) (uint32, bool) {
+	m := &candidateMatch{substrBytes: pattern, substrLowered: toLower(pattern), byteOffset: byteOffset}
+	ok := m.matchContent(content)
+	return m.byteMatchSz, ok
+}
